@@ -527,7 +527,8 @@ func (icfg *internalConfig) processACRH(
 func (m *Middleware) SetDebug(b bool) {
 	m.mu.Lock()
 	{
-		m.debug = b
+		// The debug mode of a passthrough middleware is invariably off.
+		m.debug = b && m.icfg != nil
 	}
 	m.mu.Unlock()
 }
